@@ -16,6 +16,8 @@ import (
 	"net"
 	"net/netip"
 	"net/url"
+	"os"
+	"path/filepath"
 	"reflect"
 	"strings"
 	"sync"
@@ -28,10 +30,12 @@ import (
 	"github.com/AdguardTeam/AdGuardDNS/internal/agdnet"
 	"github.com/AdguardTeam/AdGuardDNS/internal/agdpasswd"
 	"github.com/AdguardTeam/AdGuardDNS/internal/agdtest"
+	"github.com/AdguardTeam/AdGuardDNS/internal/agdtime"
 	"github.com/AdguardTeam/AdGuardDNS/internal/dnsmsg"
 	"github.com/AdguardTeam/AdGuardDNS/internal/dnsserver"
 	"github.com/AdguardTeam/AdGuardDNS/internal/dnssvc"
 	"github.com/AdguardTeam/AdGuardDNS/internal/filter"
+	"github.com/AdguardTeam/AdGuardDNS/internal/filter/filterstorage"
 	"github.com/AdguardTeam/AdGuardDNS/internal/filter/hashprefix"
 	"github.com/AdguardTeam/AdGuardDNS/internal/geoip"
 	"github.com/AdguardTeam/AdGuardDNS/internal/profiledb"
@@ -126,6 +130,9 @@ type vc07Profile struct {
 type vc07Device struct {
 	ID       string
 	LinkedIP netip.Addr
+	// NoFilter: filtering is disabled for the device although it is enabled
+	// for its profile.
+	NoFilter bool
 }
 
 // vc07SbIP is the replacement address of the safe-browsing filter.
@@ -158,7 +165,7 @@ var vc07Profiles = []*vc07Profile{
 	{ID: "prof3", Policy: vc07CatAds | vc07CatTrk | vc07CatRw | vc07CatCn | vc07CatRb, Mode: "refused", TTL: 5 * time.Second, Filtering: false,
 		Devices: []vc07Device{{ID: "dev3a", LinkedIP: netip.MustParseAddr("2001:db8:c2::77")}}},
 	{ID: "prof4", Policy: vc07CatAds | vc07CatTrk | vc07CatRw | vc07CatCn | vc07CatRb | vc07CatSb, Mode: "refused", TTL: 5 * time.Second, QueryLog: true, IPLog: true, Filtering: true,
-		Devices: []vc07Device{{ID: "dev4a"}}},
+		Devices: []vc07Device{{ID: "dev4a"}, {ID: "dev4b", NoFilter: true}}},
 }
 
 // vc07CatOf returns the category of a generated name k<kind>t<ttl>.<cat>.<scope>.test.
@@ -188,6 +195,132 @@ func vc07RwIP(pi int, qt uint16) netip.Addr {
 // vc07CnTarget is the name profile pi rewrites "cn" names to.
 func vc07CnTarget(pi int) string {
 	return fmt.Sprintf("k0t6.tgt%d.u.test.", pi)
+}
+
+// ---------------------------------------------------------------------------
+// Real rule lists (stack configuration Real).
+
+// Rule lists of the real filter storage.  vc07_l1 is shared by everybody and
+// matches every "ml" name, and the CNAME target of the upstream's CNAME
+// answers, with rules of different kinds each (domain, wildcard, regular
+// expressions with and without a literal part): the cached per-name result then
+// holds three (ml.u, target) or five (ml.s) rules gathered from several of
+// urlfilter's lookup tables.  vc07_l2 and vc07_l3 match
+// the same names with an exception and with an $important rule; which of them a
+// profile has differs.
+var vc07RealLists = map[string]string{
+	"vc07_l1": "||ml.u.test^\n*.ml.*.test\n/^[a-z0-9]+\\.ml\\.u\\.test$/\n" +
+		"||ml.s.test^\n*.ml.s.test\n/^[a-z0-9]+\\.ml\\.s\\.test$/\n/^k[0-9]t[0-9]\\.ml\\.s\\.tes[t]$/\n" +
+		"||target.test^\n/^[a-z]+\\.test$/\n/^targe[t]\\.test$/\n",
+	"vc07_l2": "@@||ml.u.test^\n@@||ml.s.test^\n||l2only.u.test^\n",
+	"vc07_l3": "||ml.u.test^$important\n||ml.s.test^$important\n||target.test^$important\n",
+}
+
+// vc07RealProfileLists are the rule lists of every profile (index 0: the
+// default group) in the Real configuration.
+var vc07RealProfileLists = [][]filter.ID{
+	{"vc07_l1"},
+	{"vc07_l1", "vc07_l2"},
+	{"vc07_l1", "vc07_l3"},
+	{"vc07_l1", "vc07_l2", "vc07_l3"},
+	{"vc07_l1", "vc07_l2", "vc07_l3"},
+}
+
+// vc07RealCustom are the custom rules of every profile in the Real
+// configuration: $client, $dnstype and exception rules that differ per profile
+// and per device.
+var vc07RealCustom = [][]filter.RuleText{
+	nil,
+	{"@@||target.test^$client=name-dev1a", "||target.test^$important,client=name-dev1b", "||ml.u.test^$dnstype=AAAA,important,client=name-dev1b"},
+	{"@@||ml.u.test^$dnstype=HTTPS", "||ml.s.test^$dnstype=A,important"},
+	nil,
+	{"@@||target.test^", "||ml.u.test^$client=name-dev4a,important"},
+}
+
+var (
+	vc07RealDirOnce sync.Once
+	vc07RealDir     string
+)
+
+// vc07RealListsDir returns a cache directory holding the index and the rule
+// lists; the storage's initial refresh accepts the files there as they are and
+// never asks the network.
+func vc07RealListsDir() string {
+	vc07RealDirOnce.Do(func() {
+		dir, err := os.MkdirTemp(os.Getenv("VERIF_WORK"), "vc07-lists-")
+		if err != nil {
+			panic(fmt.Errorf("VERIF-INCONCLUSIVE: list directory: %v", err))
+		}
+
+		idx := `{"filters":[`
+		ids := []string{"vc07_l1", "vc07_l2", "vc07_l3"}
+		for i, id := range ids {
+			if i > 0 {
+				idx += ","
+			}
+
+			idx += fmt.Sprintf(`{"downloadUrl":"http://127.0.0.1:1/%s","filterKey":"%s"}`, id, id)
+			if err = os.WriteFile(filepath.Join(dir, id), []byte(vc07RealLists[id]), 0o644); err != nil {
+				panic(fmt.Errorf("VERIF-INCONCLUSIVE: writing list: %v", err))
+			}
+		}
+
+		if err = os.WriteFile(filepath.Join(dir, "filters.json"), []byte(idx+"]}"), 0o644); err != nil {
+			panic(fmt.Errorf("VERIF-INCONCLUSIVE: writing index: %v", err))
+		}
+
+		vc07RealDir = dir
+	})
+
+	return vc07RealDir
+}
+
+func vc07NewRealStorage(st *vc07Stack) *filterstorage.Default {
+	logger := slog.New(slog.NewTextHandler(vc07Discard{}, &slog.HandlerOptions{Level: slog.LevelError + 4}))
+	none := &filterstorage.ConfigSafeSearch{URL: &url.URL{Scheme: "http", Host: "127.0.0.1:1"}, ID: filter.IDGeneralSafeSearch}
+	idxURL := &url.URL{Scheme: "http", Host: "127.0.0.1:1", Path: "/filters.json"}
+	strg, err := filterstorage.New(&filterstorage.Config{
+		BaseLogger:      logger,
+		Logger:          logger,
+		BlockedServices: &filterstorage.ConfigBlockedServices{IndexURL: idxURL},
+		Custom:          &filterstorage.ConfigCustom{CacheCount: 100},
+		HashPrefix:      &filterstorage.ConfigHashPrefix{},
+		RuleLists: &filterstorage.ConfigRuleLists{
+			IndexURL:            idxURL,
+			IndexMaxSize:        1 << 20,
+			MaxSize:             1 << 20,
+			IndexRefreshTimeout: time.Second,
+			IndexStaleness:      time.Hour,
+			RefreshTimeout:      time.Second,
+			Staleness:           time.Hour,
+			ResultCacheCount:    100,
+			ResultCacheEnabled:  true,
+		},
+		SafeSearchGeneral: none,
+		SafeSearchYouTube: none,
+		CacheManager:      agdcache.EmptyManager{},
+		Clock:             agdtime.SystemClock{},
+		ErrColl: &agdtest.ErrorCollector{OnCollect: func(ctx context.Context, err error) {
+			st.fail(ctx, "filter storage reported %v", err)
+		}},
+		Metrics:  filter.EmptyMetrics{},
+		CacheDir: vc07RealListsDir(),
+	})
+	if err != nil {
+		panic(fmt.Errorf("VERIF-INCONCLUSIVE: filter storage: %v", err))
+	}
+
+	if err = strg.RefreshInitial(context.Background()); err != nil {
+		panic(fmt.Errorf("VERIF-INCONCLUSIVE: filter storage initial refresh: %v", err))
+	}
+
+	for id := range vc07RealLists {
+		if !strg.HasListID(filter.ID(id)) {
+			panic(fmt.Errorf("VERIF-INCONCLUSIVE: rule list %s was not loaded", id))
+		}
+	}
+
+	return strg
 }
 
 // ---------------------------------------------------------------------------
@@ -287,6 +420,10 @@ type vc07Req struct {
 	// Cancel: the caller's context is already cancelled when the request is
 	// served.
 	Cancel bool
+	// Real: the case runs on the real filter storage and profile database.
+	Real bool
+	// CookieSeed makes the client cookie; repeats of one request share it.
+	CookieSeed int
 	// NearMissOf is the number of the request this one copies with one
 	// component changed, and what was changed.
 	NearMissOf int
@@ -329,7 +466,7 @@ func (r *vc07Req) build() {
 		opt.SetZ(r.Z)
 		opt.SetDo(r.DO)
 		if r.Cookie {
-			opt.Option = append(opt.Option, &dns.EDNS0_COOKIE{Code: dns.EDNS0COOKIE, Cookie: fmt.Sprintf("%016x", 0xc00c1e0000+r.N)})
+			opt.Option = append(opt.Option, &dns.EDNS0_COOKIE{Code: dns.EDNS0COOKIE, Cookie: fmt.Sprintf("%016x", 0xc00c1e0000+r.CookieSeed)})
 		}
 
 		if c.Via == "cpe" {
@@ -734,6 +871,10 @@ const (
 type vc07StackConf struct {
 	OverrideTTL bool
 	CacheType   dnssvc.CacheType
+	// Real: the filters come from a real filterstorage.Default (shared rule
+	// lists with result caches, per-profile custom rules) and the profiles from
+	// a real profiledb.Default, instead of the harness's models.
+	Real bool
 
 	// known reports whether a finding is recorded; the upstream then stays
 	// clear of its trigger (and the occurrence is counted as excluded).
@@ -741,7 +882,7 @@ type vc07StackConf struct {
 }
 
 func (c vc07StackConf) String() string {
-	return fmt.Sprintf("{overrideTTL=%t cache=%d}", c.OverrideTTL, c.CacheType)
+	return fmt.Sprintf("{overrideTTL=%t cache=%d real=%t}", c.OverrideTTL, c.CacheType, c.Real)
 }
 
 func vc07NewStack(conf vc07StackConf, expect map[agd.RequestID]*vc07Req) (st *vc07Stack) {
@@ -808,6 +949,11 @@ func vc07NewStack(conf vc07StackConf, expect map[agd.RequestID]*vc07Req) (st *vc
 			RuleList:     &filter.ConfigRuleList{Enabled: true},
 			SafeBrowsing: &filter.ConfigSafeBrowsing{},
 		}
+		if conf.Real {
+			fc.RuleList.IDs = vc07RealProfileLists[pi]
+			fc.Custom = &filter.ConfigCustom{ID: p.ID, UpdateTime: time.Unix(1700000000, 0), Rules: vc07RealCustom[pi], Enabled: len(vc07RealCustom[pi]) > 0}
+		}
+
 		st.confs[fc] = pi
 		ap := &agd.Profile{
 			FilterConfig:        fc,
@@ -827,7 +973,7 @@ func vc07NewStack(conf vc07StackConf, expect map[agd.RequestID]*vc07Req) (st *vc
 				ID:               agd.DeviceID(d.ID),
 				LinkedIP:         d.LinkedIP,
 				Name:             agd.DeviceName("name-" + d.ID),
-				FilteringEnabled: true,
+				FilteringEnabled: !d.NoFilter,
 			}
 			st.devProf[d.ID] = pi
 			if d.LinkedIP.IsValid() {
@@ -858,12 +1004,25 @@ func vc07NewStack(conf vc07StackConf, expect map[agd.RequestID]*vc07Req) (st *vc
 		return nil, nil, notFound
 	}
 
+	var profDB profiledb.Interface = db
+	if conf.Real {
+		profDB = vc07NewRealProfileDB(st)
+	}
+
 	grpConf := &filter.ConfigGroup{
 		Parental:     &filter.ConfigParental{},
 		RuleList:     &filter.ConfigRuleList{Enabled: true},
 		SafeBrowsing: &filter.ConfigSafeBrowsing{},
 	}
+	if conf.Real {
+		grpConf.RuleList.IDs = vc07RealProfileLists[0]
+	}
+
 	st.confs[grpConf] = 0
+	var realStrg *filterstorage.Default
+	if conf.Real {
+		realStrg = vc07NewRealStorage(st)
+	}
 	fltGrp := &agd.FilteringGroup{FilterConfig: grpConf, ID: "vc07_grp"}
 
 	filters := make([]*vc07Filter, len(vc07Profiles))
@@ -875,7 +1034,7 @@ func vc07NewStack(conf vc07StackConf, expect map[agd.RequestID]*vc07Req) (st *vc
 		OnForConfig: func(ctx context.Context, c filter.Config) (f filter.Interface) {
 			exp := st.checkCtx(ctx, "filter-storage", nil)
 			if c == nil || reflect.ValueOf(c).IsNil() {
-				if exp != nil && vc07Profiles[exp.Client.Prof].Filtering {
+				if exp != nil && vc07Profiles[exp.Client.Prof].Filtering && !(exp.Client.device() != nil && exp.Client.device().NoFilter) {
 					st.fail(ctx, "no filter configuration used for request %s", exp)
 				}
 
@@ -883,6 +1042,15 @@ func vc07NewStack(conf vc07StackConf, expect map[agd.RequestID]*vc07Req) (st *vc
 			}
 
 			pi, ok := st.confs[c]
+			if cc, isClient := c.(*filter.ConfigClient); !ok && isClient && conf.Real {
+				// The real profile database may hand out its own copies.
+				for i, p := range vc07Profiles {
+					if i > 0 && cc.Custom != nil && cc.Custom.ID == p.ID {
+						pi, ok = i, true
+					}
+				}
+			}
+
 			if !ok {
 				st.fail(ctx, "unknown filter configuration %p", c)
 
@@ -891,6 +1059,10 @@ func vc07NewStack(conf vc07StackConf, expect map[agd.RequestID]*vc07Req) (st *vc
 
 			if exp != nil && exp.Client.Prof != pi {
 				st.fail(ctx, "filter configuration of profile %d used for request %s", pi, exp)
+			}
+
+			if conf.Real {
+				return realStrg.ForConfig(ctx, c)
 			}
 
 			return filters[pi]
@@ -964,7 +1136,7 @@ func vc07NewStack(conf vc07StackConf, expect map[agd.RequestID]*vc07Req) (st *vc
 		HashMatcher: &agdtest.HashMatcher{
 			OnMatchByPrefix: func(context.Context, string) ([]string, bool, error) { return nil, false, nil },
 		},
-		ProfileDB:            db,
+		ProfileDB:            profDB,
 		PrometheusRegisterer: agdtest.NewTestPrometheusRegisterer(),
 		QueryLog: &agdtest.QueryLog{
 			OnWrite: func(ctx context.Context, e *querylog.Entry) (err error) {
@@ -1018,6 +1190,51 @@ func vc07NewStack(conf vc07StackConf, expect map[agd.RequestID]*vc07Req) (st *vc
 	}
 
 	return st
+}
+
+// vc07NewRealProfileDB returns a real profile database synchronised once from
+// a storage that serves the profiles and devices of st.
+func vc07NewRealProfileDB(st *vc07Stack) *profiledb.Default {
+	strg := &agdtest.ProfileStorage{
+		OnCreateAutoDevice: func(context.Context, *profiledb.StorageCreateAutoDeviceRequest) (*profiledb.StorageCreateAutoDeviceResponse, error) {
+			return nil, errors.New("vc07: no automatic devices")
+		},
+		OnProfiles: func(context.Context, *profiledb.StorageProfilesRequest) (*profiledb.StorageProfilesResponse, error) {
+			resp := &profiledb.StorageProfilesResponse{SyncTime: time.Unix(1700000000, 0)}
+			for pi, p := range vc07Profiles {
+				if pi == 0 {
+					continue
+				}
+
+				resp.Profiles = append(resp.Profiles, st.profs[pi])
+				for _, d := range p.Devices {
+					resp.Devices = append(resp.Devices, st.devs[d.ID])
+				}
+			}
+
+			return resp, nil
+		},
+	}
+
+	db, err := profiledb.New(&profiledb.Config{
+		Logger:               slog.New(slog.NewTextHandler(vc07Discard{}, &slog.HandlerOptions{Level: slog.LevelError + 4})),
+		Storage:              strg,
+		ErrColl:              agdtest.NewErrorCollector(),
+		Metrics:              profiledb.EmptyMetrics{},
+		CacheFilePath:        "none",
+		FullSyncIvl:          time.Hour,
+		FullSyncRetryIvl:     time.Hour,
+		ResponseSizeEstimate: 1,
+	})
+	if err != nil {
+		panic(fmt.Errorf("VERIF-INCONCLUSIVE: profile database: %v", err))
+	}
+
+	if err = db.Refresh(context.Background()); err != nil {
+		panic(fmt.Errorf("VERIF-INCONCLUSIVE: profile database refresh: %v", err))
+	}
+
+	return db
 }
 
 func vc07NewServer(name agd.ServerName, proto agd.Protocol, addr netip.AddrPort) *agd.Server {
